@@ -51,7 +51,7 @@ def eval (F : Facts) : List String → Option String
       | _ => none)
     let sp ← (match kv special with
       | "none" => some Special.none | "refused" => some Special.refused
-      | "stall" => some Special.stall | "reset" => some Special.reset | _ => none)
+      | "stall" => some Special.stall | "reset" | "reset-after-request" => some Special.reset | _ => none)
     let (ok, t) := exchange mf p T 0 sp as
     -- (a client with a timeout of zero: whether the request still gets out is not specified)
     some s!"{if ok then "ok" else "err"} {timeClass T t} requests={if T = 0 then "-" else "1"}"
